@@ -96,8 +96,15 @@ def h_comment_extend(a: str, b: str) -> bool:
     c.append(b)
     second = str(c)
     la, lb = ref_split(a), ref_split(b)
-    return (first == _expected_comment(la) and second == _expected_comment(la + lb)
-            and c.lines == la + lb)
+    if not (first == _expected_comment(la) and second == _expected_comment(la + lb) and c.lines == la + lb):
+        return False
+    d = Comment(a)
+    d_before = d
+    d += b                                   # in-place extension keeps it a comment
+    if d is not d_before or not isinstance(d, Comment) or str(d) != _expected_comment(la + lb):
+        return False
+    e = Comment(a) + b                       # a new block: plain text, the comment itself unchanged
+    return e.lines == la + lb
 
 
 # ---- build level -----------------------------------------------------------------------------------
